@@ -139,6 +139,40 @@ def run(chk):
             return f"grid {exp_axes}: sum_r prod_d f_d(x_d) per output slot"
         chk.run("C10.R3", f"{SPINN_MOD}:SPINN.eval_nn", cfg, go, construct="SPINN.eval_nn")
 
+    # ---------------- R3b SPINN.__call__: the separable network is evaluated row by row on (t_i, x_i) and combined
+    for eq_type in ("statio_PDE", "nonstatio_PDE"):
+        for bare in (False, True):
+            cfg = {"eq_type": eq_type, "bare_nn_params": bare}
+
+            def go(eq_type=eq_type, bare=bare):
+                d_sp, r, m, B = 2, 2, 2, 2
+                d = d_sp + (1 if eq_type == "nonstatio_PDE" else 0)
+                static = OpaqueObj('spinn_static', attrs={'out_shape': (d, r * m)})
+                sp = SPINN.make(d=d, r=r, eq_type=eq_type, m=m, params=Sym('p'), static=static)
+                x = AT((B, d_sp), np.array([[Poly.atom(('F', 'x', (b, j), frozenset())) for j in range(d_sp)] for b in range(B)], dtype=object))
+                t = AT((B, 1), np.array([[Poly.atom(('F', 't', (b,), frozenset()))] for b in range(B)], dtype=object))
+                params = Sym('theta') if bare else Params.make(nn_params=Sym('theta'), eq_params={})
+                out = to_at(sp(x, params) if eq_type == "statio_PDE" else sp(t, x, params))
+                model = ModelToken((Sym('theta'), static))
+                rows = []
+                for b in range(B):
+                    rows.append(model(t=None, x=x[b]) if eq_type == "statio_PDE" else model(t[b], x[b]))
+                exp_axes = (B,) * d + (m,)
+                if tuple(out.axes) != exp_axes:
+                    raise Violation("shape", f"axes {out.axes}", f"{exp_axes}")
+                for idx in itertools.product(range(B), repeat=d):
+                    for s_ in range(m):
+                        e = Poly()
+                        for z in range(s_ * r, (s_ + 1) * r):
+                            t_ = Poly.const(1)
+                            for dd in range(d):
+                                t_ = t_ * rows[idx[dd]].data[dd, z]
+                            e = e + t_
+                        if out.data[idx + (s_,)] != e:
+                            raise Violation(f"entry {idx + (s_,)}", str(out.data[idx + (s_,)])[:200], str(e)[:200])
+                return f"grid {exp_axes} from the row-wise separable evaluations"
+            chk.run("C10.R3", f"{SPINN_MOD}:SPINN.__call__", cfg, go, construct=f"SPINN.__call__[{eq_type}]")
+
     # ---------------- R4 HYPERPINN
     HYPER = w.get(HYPER_MOD, "HYPERPINN")
     for order in (('nu', 'D'), ('D', 'nu')):
